@@ -28,7 +28,8 @@ RULE = ("one case = a generated history of 1-60 operations over EventListHeap "
 COMPONENTS = {"real": ["pydsol.core.eventlist.EventListHeap", "pydsol.core.simevent.SimEvent",
                        "pydsol.core.units.Duration"],
               "stub": []}
-ASSUMPTIONS = ["NaN times are outside the quantifier",
+ASSUMPTIONS = ["sizes are swarm-varied: about 1 % of the histories are large (150-1000 operations; the drain comparison then runs every 37th operation)",
+               "NaN times are outside the quantifier",
                "no scheduler/clock/second party in this property: the baton scheduler is idle; the same list is also driven through cancel_event in every C02 run"]
 
 GRID = [0, 0, 1, 1, 2, 3, 0.5, 1.5, 2, 5, 8, 13, 19, 20, 18, 7, float("inf")]
@@ -49,6 +50,8 @@ def generate(seed, tier, idx=0):
     # int times far beyond 2**53 are exact ints but not representable as floats
     big = rng.choice([0, 0, 0, 2 ** 53, 10 ** 18 + 7]) if ttype == "int" else 0
     n = rng.choice([3, 4, 5, 6, 8, 10, 15, 20, 30, 45, 60])
+    if rng.random() < (0.01 if tier == "quick" else 0.03):
+        n = rng.choice([150, 400, 1000])      # occasional large lists
     shape = rng.random()
     w = {"add": 5, "readd": 1, "remove": 2, "remove_absent": 0.5, "pop": 2,
          "peek": 1, "contains": 1, "size": 0.5, "is_empty": 0.5, "clear": 0.15}
@@ -240,7 +243,8 @@ def run_history(case):
         if el.is_empty() is not (len(ref) == 0):
             return ("size", "after op #%d is_empty() == %r with %d pending"
                     % (step, el.is_empty(), len(ref))), info
-        if mutated:
+        if mutated and (len(case["ops"]) <= 80 or step % 37 == 0
+                        or step == len(case["ops"]) - 1):
             f = drain_check(step)
             if f:
                 return f, info
